@@ -186,6 +186,12 @@ def cum_intervals(d):
     return out
 
 
+class StubMismatch(Exception):
+    """the implementation asked the scripted generator for something the script does not provide (another
+    method, more variates): the sampling MECHANISM differs from one-uniform-per-qubit inverse-CDF sampling.
+    Not a violation by itself -- the distribution is what the property fixes; see kind 'sample-stat'."""
+
+
 class StubRng:
     """stands in for numpy.random.Generator: .random() returns the scripted values in order
     (.random(k) returns the next k as an array, so a vectorised refactoring still works)"""
@@ -196,13 +202,20 @@ class StubRng:
 
     def random(self, size=None, *a, **kw):
         if size is None:
+            if self.k >= len(self.us):
+                raise StubMismatch('more variates requested than one per qubit')
             u = self.us[self.k]
             self.k += 1
             return u
         m = int(np.prod(size))
+        if self.k + m > len(self.us):
+            raise StubMismatch('more variates requested than one per qubit')
         out = np.array(self.us[self.k:self.k + m], dtype=float).reshape(size)
         self.k += m
         return out
+
+    def __getattr__(self, name):
+        raise StubMismatch(f'Generator.{name} requested')
 
 
 def edge_us(d, rng, n_extra=2):
@@ -433,6 +446,11 @@ def channel_samples(ctx, rng, k):
              (Fraction(1, 4), (Fraction(0), Fraction(1), Fraction(0))), (Fraction(3, 4), (Fraction(0), Fraction(0), Fraction(1))),
              (Fraction(1, 2), (Fraction(1, 2), Fraction(0), Fraction(1, 2))), (Fraction(1), (Fraction(1, 2), Fraction(1, 2), Fraction(0)))]
     out = [fixed[int(i)] for i in rng.choice(len(fixed), min(2, k), replace=False)]
+    # "all error rates": the sub-threshold regime (rates far below 1/16) and rates next to 1, still dyadic
+    extreme = [Fraction(1, 32), Fraction(1, 64), Fraction(3, 128), Fraction(1, 1024), Fraction(63, 64),
+               Fraction(1023, 1024)]
+    if len(out) < k:
+        out.append((extreme[int(rng.integers(len(extreme)))], R[int(rng.integers(len(R)))]))
     while len(out) < k:
         out.append((P[int(rng.integers(len(P)))], R[int(rng.integers(len(R)))]))
     return out
@@ -635,6 +653,56 @@ def case_objects(case):
     return code, em, p, r, dists
 
 
+TAIL = 1e-10   # two-sided binomial tail below which an observed frequency contradicts the stated probability
+
+
+def sampling_statistics(code, em, pf, dists, N, seed):
+    """N errors drawn with a real numpy Generator (whatever mechanism generate() uses); per qubit the
+    count of every letter, and for neighbouring qubits the count of `both faulty`, must be compatible
+    with the stated channel: exact binomial tail probability >= TAIL (about 6.5 sigma).  With a few
+    thousand comparisons per run the chance of a false alarm is below 1e-6."""
+    from scipy.stats import binom
+    n = code.n
+    rng = np.random.default_rng(seed)
+    cnt = np.zeros((n, 4), dtype=np.int64)
+    both = np.zeros(max(n - 1, 0), dtype=np.int64)
+    for _ in range(N):
+        e = np.asarray(em.generate(code, pf, rng=rng))
+        if e.shape != (2 * n,):
+            return f'generate returned shape {e.shape}, expected ({2 * n},)'
+        x, z = e[:n].astype(np.int64), e[n:].astype(np.int64)
+        if ((x | z) > 1).any() or (x < 0).any() or (z < 0).any():
+            return 'generate returned a non-binary vector'
+        idx = x + 2 * z               # I=0 X=1 Z=2 Y=3
+        cnt[np.arange(n), idx] += 1
+        f = idx != 0
+        both += (f[:-1] & f[1:])
+    col = {'I': 0, 'X': 1, 'Z': 2, 'Y': 3}
+
+    def tail(k, q):
+        q = float(q)
+        if q <= 0:
+            return 1.0 if k == 0 else 0.0
+        if q >= 1:
+            return 1.0 if k == N else 0.0
+        return min(1.0, 2 * min(binom.cdf(k, N, q), binom.sf(k - 1, N, q)))
+
+    for i in range(n):
+        for s_ in LETTERS:
+            k = int(cnt[i, col[s_]])
+            t = tail(k, dists[i][s_])
+            if t < TAIL:
+                return (f'qubit {i}: {s_} sampled {k} times in {N} (frequency {k / N:.5f}), stated probability '
+                        f'{float(dists[i][s_]):.5f} (binomial tail {t:.1e})')
+    for i in range(n - 1):
+        q = (1 - dists[i]['I']) * (1 - dists[i + 1]['I'])
+        t = tail(int(both[i]), q)
+        if t < TAIL:
+            return (f'qubits {i},{i + 1} both faulty {int(both[i])} times in {N}, independent draws give '
+                    f'probability {float(q):.6f} (binomial tail {t:.1e})')
+    return None
+
+
 def check_case(case):
     """None if the property holds on this input, else a description of the violation."""
     try:
@@ -720,24 +788,28 @@ def _check_case(case):
         return None
     if kind == 'sample':
         us = [float(parse_rat(u)) for u in case['us']]
-        e = np.asarray(em.generate(code, pf, rng=StubRng(us)))
+        stub = StubRng(us)
+        try:
+            e = np.asarray(em.generate(code, pf, rng=stub))
+        except StubMismatch:
+            # another sampling mechanism: the scripted variates say nothing; a real generator instead
+            e = np.asarray(em.generate(code, pf, rng=np.random.default_rng(len(us))))
+            stub = None
         if e.shape != (2 * n,):
             return f'generate returned shape {e.shape}, expected ({2 * n},)'
         if not all(int(v) in (0, 1) for v in e):
             return 'generate returned a non-binary vector'
         for i in range(n):
-            iv = cum_intervals(dists[i])
-            u = Fraction(us[i])
-            want = [s for s in LETTERS if iv[s][0] <= u < iv[s][1]]
-            want = want[0] if want else 'Z'
             got = {(0, 0): 'I', (1, 0): 'X', (1, 1): 'Y', (0, 1): 'Z'}[(int(e[i]), int(e[n + i]))]
-            if got != want:
-                return f'qubit {i}: variate {us[i]!r} gave {got}, its interval belongs to {want}'
+            if dists[i][got] == 0:
+                return f'qubit {i}: sampled {got}, which the stated channel gives probability 0'
         if p == 0 and e.any():
             return 'p = 0 produced an error'
         if p == 1 and any(int(e[i]) == 0 and int(e[n + i]) == 0 for i in range(n)):
             return 'p = 1 left a qubit without error'
         return None
+    if kind == 'sample-stat':
+        return sampling_statistics(code, em, pf, dists, case['N'], case['seed'])
     if kind == 'weights':
         with np.errstate(all='ignore'):
             wx, wz = em.get_weights(code, pf)
@@ -887,6 +959,32 @@ def oracle_cases(ctx, deep):
                     if dname is not None:  # XZZX-deformed code objects are not CSS: joint decoder
                         cases.append(dict(base, kind='bposd', code_deformation='XZZX',
                                           decoding=[int(x) for x in rng.integers(0, 2, 2 * n)]))
+    # statistics of real sampling (mechanism-free): biased directions, deformed and not, tiny to large rates
+    stat_codes = [('Toric2DCode', (2, 2)), ('RotatedPlanar2DCode', (3, 3))] + \
+        ([('Toric3DCode', (2, 2, 2)), ('RhombicToricCode', (2, 2, 2)), ('Color666ToricCode', (2, 2)),
+          ('Planar2DCode', (3, 2))] if deep else [])
+    stat_ch = [(Fraction(1, 32), (Fraction(1, 8), Fraction(1, 8), Fraction(3, 4))),
+               (Fraction(1, 16), (Fraction(3, 4), Fraction(0), Fraction(1, 4))),
+               (Fraction(1, 4), (Fraction(1, 2), Fraction(1, 4), Fraction(1, 4)))] + \
+        ([(Fraction(1, 1024), (Fraction(1, 4), Fraction(1, 4), Fraction(1, 2))),
+          (Fraction(3, 128), (Fraction(0), Fraction(0), Fraction(1))),
+          (Fraction(1, 64), (Fraction(5, 8), Fraction(1, 4), Fraction(1, 8))),
+          (Fraction(7, 8), (Fraction(1, 8), Fraction(5, 8), Fraction(1, 4))),
+          (Fraction(1), (Fraction(1, 2), Fraction(1, 2), Fraction(0)))] if deep else [])
+    for ci, (name, size) in enumerate(stat_codes):
+        opts = deformation_options(name)
+        for di, (dname, dkw) in enumerate(opts):
+            if not deep and di not in (0, len(opts) - 1):
+                continue
+            for pi_, (p, r) in enumerate(stat_ch):
+                if not deep and (ci + di + pi_) % 3 != 0:
+                    continue
+                if deep and di not in (0, len(opts) - 1) and (ci + di + pi_) % 4 != 0:
+                    continue
+                N = 60000 if p < Fraction(1, 256) else (20000 if deep else 8000)
+                cases.append({'code': name, 'size': list(size), 'deformation': dname, 'kwargs': dkw, 'p': rs(p),
+                              'r': [rs(x) for x in r], 'kind': 'sample-stat', 'N': N,
+                              'seed': int(rng.integers(0, 2 ** 31))})
     for _ in range(40 if deep else 12):
         pv = [Fraction(int(rng.integers(0, 5)), 16) for _ in range(4)]
         for u in edge_us(dict(zip(LETTERS, pv)), rng):
